@@ -13,6 +13,7 @@ import (
 
 func init() {
 	register(&PropertyCheck{ID: "C06", Level: "proof", Run: checkC06, Canaries: []Canary{
+		{Name: "by-value-body-stage-clamps-its-copy-of-the-length", Rule: "R6.2", Where: "remainingLen", Edits: []Edit{{"packet.go", "\tif _, err := fh.ReadFrom(r); err != nil {\n\t\treturn nil, fmt.Errorf(\"ReadPacket: %w\", err)\n\t}\n\n\treturn fh.ReadRemaining(r)\n}\n\n// Dump writes all packet fields to the given writer, including empty\n// value ones.\nfunc Dump(w io.Writer, p Packet) {\n\tif p, ok := p.(interface{ dump(io.Writer) }); ok {\n\t\tp.dump(w)\n\t}\n}\n\n// Packet and ControlPacket can be used interchangebly.\ntype Packet = ControlPacket\n\ntype ControlPacket interface {\n\t// Write the packet in wireformat to a writer\n\tio.WriterTo\n\n\t// Unmarshal wireformat\n\tencoding.BinaryUnmarshaler\n\n\t// Return a short readable string suitable for logging\n\tfmt.Stringer\n}\n\n// HasPacketID is implemented by packets carrying a packet ID.\ntype HasPacketID interface {\n\tPacketID() uint16\n}\n\n// HasReason is implemented by packets carrying a reason code.\ntype HasReason interface {\n\tReasonCode() ReasonCode\n}\n\n// HasWellFormed is implemented by packets that implement WellFormed.\ntype HasWellFormed interface {\n\tWellFormed() *Malformed\n}\n\ntype fixedHeader struct {\n\tfixed        bits\n\tremainingLen vbint\n}\n\n// ReadFrom reads the fixed byte and the remaining length, use\n// ReadRemaining for the rest.\n//\n// Note: ReasonString for splitting this up is so we can compare\n// performance as pahos Unpack works on the remaining only.\nfunc (f *fixedHeader) ReadFrom(r io.Reader) (int64, error) {\n\tn, err := f.fixed.ReadFrom(r)\n\tif err != nil {\n\t\treturn n, err\n\t}\n\tm, err := f.remainingLen.ReadFrom(r)\n\treturn n + m, err\n}\n\n// ReadRemaining reads the reamining data and converts to a control\n// packet.\nfunc (f *fixedHeader) ReadRemaining(r io.Reader) (ControlPacket, error) {\n\tvar p ControlPacket\n\tswitch byte(f.fixed) & 0b1111_0000 {\n\n\tcase PUBLISH:\n\t\tp = &Publish{fixed: f.fixed}\n\n\tcase PUBREL:\n\t\tp = &PubRel{fixed: f.fixed}\n\n\tcase PUBCOMP:\n\t\tp = &PubComp{fixed: f.fixed}\n\n\tcase PUBREC:\n\t\tp = &PubRec{fixed: f.fixed}\n\n\tcase PUBACK:\n\t\tp = &PubAck{fixed: f.fixed}\n\n\tcase CONNECT:\n\t\tp = &Connect{fixed: f.fixed}\n\n\tcase CONNACK:\n\t\tp = &ConnAck{fixed: f.fixed}\n\n\tcase SUBSCRIBE:\n\t\tp = &Subscribe{fixed: f.fixed}\n\n\tcase UNSUBSCRIBE:\n\t\tp = &Unsubscribe{fixed: f.fixed}\n\n\tcase SUBACK:\n\t\tp = &SubAck{fixed: f.fixed}\n\n\tcase UNSUBACK:\n\t\tp = &UnsubAck{fixed: f.fixed}\n\n\tcase PINGREQ:\n\t\tp = &PingReq{fixed: f.fixed}\n\n\tcase PINGRESP:\n\t\tp = &PingResp{fixed: f.fixed}\n\n\tcase DISCONNECT:\n\t\tp = &Disconnect{fixed: f.fixed}\n\n\tcase AUTH:\n\t\tp = &Auth{fixed: f.fixed}\n\n\tdefault:\n\t\tp = &Undefined{}\n\t}\n\tif f.remainingLen == 0 {\n\t\treturn p, nil", "\n\t// header stage; the fixed byte followed by the remaining length\n\tif _, err := fh.fixed.ReadFrom(r); err != nil {\n\t\treturn nil, fmt.Errorf(\"ReadPacket: %w\", err)\n\t}\n\tif _, err := fh.remainingLen.ReadFrom(r); err != nil {\n\t\treturn nil, fmt.Errorf(\"ReadPacket: %w\", err)\n\t}\n\n\t// body stage\n\treturn fh.ReadRemaining(r)\n}\n\n// Dump writes all packet fields to the given writer, including empty\n// value ones.\nfunc Dump(w io.Writer, p Packet) {\n\tif p, ok := p.(interface{ dump(io.Writer) }); ok {\n\t\tp.dump(w)\n\t}\n}\n\n// Packet and ControlPacket can be used interchangebly.\ntype Packet = ControlPacket\n\ntype ControlPacket interface {\n\t// Write the packet in wireformat to a writer\n\tio.WriterTo\n\n\t// Unmarshal wireformat\n\tencoding.BinaryUnmarshaler\n\n\t// Return a short readable string suitable for logging\n\tfmt.Stringer\n}\n\n// HasPacketID is implemented by packets carrying a packet ID.\ntype HasPacketID interface {\n\tPacketID() uint16\n}\n\n// HasReason is implemented by packets carrying a reason code.\ntype HasReason interface {\n\tReasonCode() ReasonCode\n}\n\n// HasWellFormed is implemented by packets that implement WellFormed.\ntype HasWellFormed interface {\n\tWellFormed() *Malformed\n}\n\n// maxBody limits the allocation done for the body of one frame\nconst maxBody = 1 << 24\n\n// fixedHeader is the fixed byte and the remaining length as read by\n// ReadPacket, use ReadRemaining for the rest.\n//\n// Note: ReasonString for splitting this up is so we can compare\n// performance as pahos Unpack works on the remaining only.\ntype fixedHeader struct {\n\tfixed        bits\n\tremainingLen vbint\n}\n\n// ReadRemaining reads the reamining data and converts to a control\n// packet. The receiver is a copy, the caller's header is never updated.\nfunc (f fixedHeader) ReadRemaining(r io.Reader) (ControlPacket, error) {\n\tvar p ControlPacket\n\tswitch byte(f.fixed) & 0b1111_0000 {\n\n\tcase PUBLISH:\n\t\tp = &Publish{fixed: f.fixed}\n\n\tcase PUBREL:\n\t\tp = &PubRel{fixed: f.fixed}\n\n\tcase PUBCOMP:\n\t\tp = &PubComp{fixed: f.fixed}\n\n\tcase PUBREC:\n\t\tp = &PubRec{fixed: f.fixed}\n\n\tcase PUBACK:\n\t\tp = &PubAck{fixed: f.fixed}\n\n\tcase CONNECT:\n\t\tp = &Connect{fixed: f.fixed}\n\n\tcase CONNACK:\n\t\tp = &ConnAck{fixed: f.fixed}\n\n\tcase SUBSCRIBE:\n\t\tp = &Subscribe{fixed: f.fixed}\n\n\tcase UNSUBSCRIBE:\n\t\tp = &Unsubscribe{fixed: f.fixed}\n\n\tcase SUBACK:\n\t\tp = &SubAck{fixed: f.fixed}\n\n\tcase UNSUBACK:\n\t\tp = &UnsubAck{fixed: f.fixed}\n\n\tcase PINGREQ:\n\t\tp = &PingReq{fixed: f.fixed}\n\n\tcase PINGRESP:\n\t\tp = &PingResp{fixed: f.fixed}\n\n\tcase DISCONNECT:\n\t\tp = &Disconnect{fixed: f.fixed}\n\n\tcase AUTH:\n\t\tp = &Auth{fixed: f.fixed}\n\n\tdefault:\n\t\tp = &Undefined{}\n\t}\n\tif f.remainingLen == 0 {\n\t\treturn p, nil\n\t}\n\t// f is our own copy of the header; cap what a single frame may\n\t// make us allocate, larger bodies fail in UnmarshalBinary anyway\n\tif f.remainingLen > maxBody {\n\t\tf.remainingLen = maxBody"}}},
 		{Name: "header-stage-refuses-a-ping-with-a-body", Rule: "R6.6", Where: "ReadPacket on PingReq", Edits: []Edit{{"packet.go", "\tm, err := f.remainingLen.ReadFrom(r)\n\treturn n + m, err", "\tm, err := f.remainingLen.ReadFrom(r)\n\tif err == nil && byte(f.fixed)&0xf0 == PINGREQ && f.remainingLen != 0 {\n\t\treturn n + m, ErrMissingData\n\t}\n\treturn n + m, err"}}},
 		{Name: "read-after-the-body", Rule: "R6.6", Where: "ReadPacket on Disconnect", Edits: []Edit{{"packet.go", "\tif err := p.UnmarshalBinary(data); err != nil {", "\tif byte(f.fixed)&0xf0 == DISCONNECT {\n\t\tvar one [1]byte\n\t\tif n, _ := io.ReadFull(r, one[:]); n > 0 {\n\t\t\treturn nil, ErrMissingData\n\t\t}\n\t}\n\tif err := p.UnmarshalBinary(data); err != nil {"}}},
 		{Name: "extra-byte-read-after-the-length", Rule: "R6.6", Where: "ReadPacket on", Edits: []Edit{{"packet.go", "\tm, err := f.remainingLen.ReadFrom(r)\n\treturn n + m, err", "\tm, err := f.remainingLen.ReadFrom(r)\n\tif err == nil && f.remainingLen > 2 {\n\t\tvar pad bits\n\t\tpad.ReadFrom(r)\n\t}\n\treturn n + m, err"}}},
@@ -528,7 +529,9 @@ func checkBodySite(p *Prog, c *Check, u ReaderUse, onPath map[*ssa.Function]bool
 			for _, ins := range b.Instrs {
 				switch x := ins.(type) {
 				case *ssa.Store:
-					if k, _, ok := classOfAddr(x.Addr); ok && k.same(cls) && !storeIntoPrivateTemp(x) {
+					// (a store into a private temporary is another object — unless it is the very object the body size
+					// is read from: `f.remainingLen = maxBody` on the body stage's own copy of the header)
+					if k, sb, ok := classOfAddr(x.Addr); ok && k.same(cls) && (!storeIntoPrivateTemp(x) || sb == base) {
 						stores = append(stores, writer{fn: f, ins: ins})
 					}
 				case *ssa.Call:
